@@ -337,3 +337,76 @@ def extra_units():
     from contracts import c01
     from pyvc.units import share
     return [share(u, PROP) for u in c01.UNITS if getattr(u, 'name', '').startswith('FastqHandle.write[one file per cell')]
+
+
+# ------------------------------------------------------------------------------ split_bam_by_tag: one pass with a limit on open handles
+# The per-cell BAM splitter works in passes: a pass writes the first max_handles values it meets and reports the others as
+# waiting, the caller runs another pass for them.  One pass: every record of a value it reports done is in that value's file, in
+# order; the values it could not open are reported waiting and not done (else they would never be written).
+FSB = 'singlecellmultiomics/bamProcessing/bamSplitByTag.py'
+
+
+def split_setup(eng):
+    from pyvc import externals, stubs
+    eng.ghost.clear()
+    eng.ghost.update({'files': {}, 'closed': []})
+    eng.spec_env['GHOST'] = eng.ghost
+    values = ['cellA', 'cellB', 'cellA', 'cellC', 'cellB', 'cellD', 'cellA']
+    recs = []
+    for i, v in enumerate(values):
+        o = Obj('SplitRead', {'i': i, 'value': v})
+        o.vc_immutable = True
+        recs.append(o)
+    eng.spec_env['RECS'] = recs
+    stubs.STUBS['SplitRead'] = {'methods': {'has_tag': lambda e, o, t: True, 'get_tag': lambda e, o, t: o.attrs['value']},
+                                'props': {}, 'setters': {}}
+
+    class Header:
+        def vc_getattr(self, e, attr, node=None):
+            from pyvc.engine import BoundMethod
+            return BoundMethod('copy', lambda e2, a, k: 'HEADER')
+
+    def opener(e, a, k, n):
+        path, mode = a[0], (a[1] if len(a) > 1 else 'rb')
+        if 'w' in mode:
+            e.ghost['files'][path] = []
+            fn = Obj('Bytes', {'text': path})
+            return Obj('SplitOut', {'path': path, 'filename': fn})
+        o = Obj('SplitIn', {})
+        o.vc_immutable = True
+        return o
+    stubs.STUBS['SplitIn'] = {'methods': {'__iter__': lambda e, o: list(recs)}, 'props': {'header': lambda e, o: Header()}, 'setters': {}}
+    stubs.STUBS['SplitOut'] = {'methods': {'write': lambda e, o, r: e.ghost['files'][o.attrs['path']].append(r.attrs['i']),
+                                           'close': lambda e, o: e.ghost['closed'].append(o.attrs['path'])}, 'props': {}, 'setters': {}}
+    stubs.STUBS['Bytes'] = {'methods': {'decode': lambda e, o, *a: o.attrs['text']}, 'props': {}, 'setters': {}}
+    externals.EXTRA['pysam.AlignmentFile'] = opener
+    externals.EXTRA['singlecellmultiomics.utils.path.get_valid_filename'] = lambda e, a, k, n: a[0]
+    eng.loader.call_hooks['singlecellmultiomics.utils.path.get_valid_filename'] = lambda e, f, a, k, n: a[0]
+    pool = Obj('Pool', {})
+    pool.vc_immutable = True
+    stubs.STUBS['Pool'] = {'methods': {'__enter__': lambda e, o: o, '__exit__': lambda e, o, *a: None,
+                                       'imap_unordered': lambda e, o, fn, items: []}, 'props': {}, 'setters': {}}
+    externals.EXTRA['multiprocessing.Pool'] = lambda e, a, k, n: pool
+
+
+split_pass = Contract(
+    PROP, FSB + '::split_bam_by_tag', name='split_bam_by_tag[one pass, 4 cells, at most 2 handles]',
+    params={'input_bam_path': ('const', 'in.bam'), 'output_prefix': ('const', 'out_'), 'tag': ('const', 'SM'), 'head': 'none',
+            'max_handles': ('const', 2), 'skip': ('const', set())},
+    cases=[{}, {'skip': ('const', {'cellA'})}],
+    setup=split_setup,
+    ensures={
+        'files_hold_the_records_of_their_cell_in_order':
+            'all(GHOST["files"].get("out_" + v + ".bam") == [r.i for r in RECS if r.value == v] for v in result[0])',
+        'done_are_exactly_the_cells_with_a_file': 'sorted(["out_" + v + ".bam" for v in result[0]]) == sorted(list(GHOST["files"].keys()))',
+        'postponed_cells_are_reported_waiting_and_not_done':
+            'all(((r.value in result[0]) or (r.value in result[1]) or (r.value in skip)) for r in RECS) and '
+            'all(not (v in result[0]) for v in result[1]) and all(not (v in skip) for v in result[0])',
+        'the_limit_on_open_handles_is_kept': 'len(GHOST["files"]) <= 2',
+        'every_opened_file_is_closed': 'sorted(GHOST["closed"]) == sorted(list(GHOST["files"].keys()))',
+    },
+    raises={},
+    bounded='7 records of 4 cells, at most 2 handles; nothing skipped / one cell skipped (done in an earlier pass)',
+    assumptions=['pysam.AlignmentFile reader/writer and the indexing pool through stubs (A4); get_valid_filename identity on these names'],
+)
+UNITS.append(split_pass)
